@@ -22,7 +22,7 @@ RULE = (
 ASSUMPTIONS = [
     "a trailing line terminator in data may or may not add a final empty line (the statement leaves it open; both readings accepted)",
     "an event whose data buffer is empty is still reported by the reference parser (a browser would not dispatch it)",
-    "WSGI pings (thread timing) are explored under C06's thread engine; here WSGI runs with a long ping interval",
+    "WSGI ping interleavings use the controlled-thread engine (see C06) with a preemption bound of 1 (thorough 2)",
 ]
 
 ALPHA = ["a", " ", ":", "\r", "\n", "\x0b", "\x0c", "\x1c", "\x1d", "\x1e", "\x85", "\u2028", "\u2029"]
@@ -67,6 +67,7 @@ def shards(tier, seed):
     out = [("data", i) for i in range(len(ALPHA))]
     out.append(("extra",))
     out.append(("wsgi_seq",))
+    out += [("wsgi_threads", n, t) for n in (1, 2, 3) for t in (1, 2)]
     out += [("asgi_seq", k) for k in range(8)]
     return out
 
@@ -139,6 +140,37 @@ def judge_stream(events, body, charset):
         if p:
             return ("event-mismatch", f"event {i} {ev!r}: {p}; body {body!r:.200}")
     return None
+
+
+def wsgi_threads(r, n, timeouts, tier):
+    """WSGI event stream on controlled threads (engine of C06): every schedule within the preemption bound incl. ping timeouts;
+    the stream is read to its end and parsed: one block per event, in order, pings invisible."""
+    from . import c06
+
+    events = [{"data": str(i)} for i in range(n)]
+    outcomes = set()
+
+    def on_exec(x):
+        r.count("evaluations")
+        r.count("traces")
+        r.count("transitions", len(x.choices))
+        o = x.obs
+        body = b"".join(o["got"])
+        npings = body.count(b": ping\n\n")
+        outcomes.add((npings, o["deadlock"]))
+        if npings:
+            r.count("distinct_nontrivial")
+        w = {"kind": "wsgi_threads", "n": n, "timeouts": timeouts, "schedule": list(x.choices)}
+        if o["deadlock"] or o["watchdog"] or o["livelock"]:
+            r.violation("wsgi-threads:stuck", w, f"WSGI SendEventResponse over {n} events, schedule {o['trace'][-12:]}: stuck (see C06)")
+            return
+        p = judge_stream(events, body, "utf-8")
+        if p:
+            r.violation("wsgi-threads:" + p[0], w, f"WSGI SendEventResponse over {n} events with {npings} ping(s), schedule {o['trace'][-12:]}: {p[1]}")
+
+    dfs(lambda prefix: c06.run_wsgi_sse(prefix, n, None, None, False, timeouts), on_exec, bound=1 if tier == "quick" else 2)
+    r.count("states", len(outcomes))
+    r.sample({"wsgi_threads": {"events": n, "ping_timeouts": timeouts, "preemption_bound": 1 if tier == "quick" else 2}})
 
 
 def run_asgi(prefix, events):
@@ -223,6 +255,8 @@ def run_shard(desc, tier):
             check_one(r, "d", {"id": name}, "utf-8")
         r.count("states", 1)
         r.count("transitions", int(r.c["evaluations"]))
+    elif desc[0] == "wsgi_threads":
+        wsgi_threads(r, desc[1], desc[2], tier)
     elif desc[0] == "wsgi_seq":
         wsgi_sequences(r)
         r.count("states", 1)
@@ -242,6 +276,11 @@ def replay(w):
         ev = dict(w["event"])
         data = ev.pop("data", None)
         check_one(r, data, ev, w["charset"])
+    elif w["kind"] == "wsgi_threads":
+        from . import c06
+        x = c06.run_wsgi_sse(list(w["schedule"]), w["n"], None, None, False, w["timeouts"])
+        p = judge_stream([{"data": str(i)} for i in range(w["n"])], b"".join(x.obs["got"]), "utf-8")
+        return bool(p or x.obs["deadlock"]), {"problem": p, "deadlock": x.obs["deadlock"]}
     elif w["kind"] == "wsgi_seq":
         wsgi_sequences(r)
         r.viol = {k: v for k, v in r.viol.items() if v[1]["seq"] == w["seq"]}
